@@ -6,21 +6,29 @@
 //   L = (pattern / 10) % 10   life cycle of the pipe object, see scenario()
 //   O = (pattern / 100) % 10  0: setCallback() then initialize();  1: initialize() then setCallback() (what log::AsyncSink and
 //                             trace::Sink do) - in every session
+//
+// Caller-owned inputs never outlive the call that receives them: every append()/appendLockless() gets a fresh heap block that is
+// overwritten with '#' and freed as soon as the call returns; the Config handed to initialize() is a heap object that is zeroed and
+// freed right after initialize() returns; setCallback() gets a temporary std::function.
 #include "sched/sched.h"
 #include "sched/explore.h"
-#include <tbox/util/async_pipe.cpp>     // included as source: access to AsyncPipe::Impl
+#include "probe.h"
+#include <tbox/util/async_pipe.cpp>     // included as source: dump() needs the complete AsyncPipe::Impl type (diagnostics only)
 #include <string>
 #include <thread>
 #include <vector>
 
 using tbox::util::AsyncPipe;
+// private members, read for the deadlock dump only (never by the oracle); a renamed member degrades the dump, not the build
+VF_PROBE(stop_signal_) VF_PROBE(inited_) VF_PROBE(curr_buffer_) VF_PROBE(free_buffers_) VF_PROBE(full_buffers_) VF_PROBE(buff_num_)
 namespace {
-// append patterns: per producer a list of strings (distinct letters so the parse of the output is unambiguous).
-// A string that starts with '+' is handed over as ONE record in two lockless appends under appendLock()/appendUnlock()
-// ('|' is the split point; either part may be empty). "" is a zero-length append (trace::Sink does that for empty names).
-struct Pattern { std::vector<std::vector<std::string>> prod; };
+// append patterns: per producer a list of strings (distinct first symbols so the parse of the output is unambiguous).
+// A string that starts with '+' is handed over as ONE record in several lockless appends under appendLock()/appendUnlock()
+// ('|' separates the parts; any part may be empty). "" is a zero-length append (trace::Sink does that for empty names).
+struct Pattern { std::vector<std::vector<std::string>> prod; bool reenter; };
 Pattern pattern(int id, int bs) {
-  static const char A1[] = "abcdefgh0123456789";                                      // 18 distinct symbols: no chunk of big1 repeats for bs <= 6
+  // 18 distinct symbols: no chunk of big1 repeats for bs <= 6; the payload is binary (a NUL and a 0xff byte, already in the first three)
+  static const char A1[] = "a\0\xff" "defgh0123456789";
   std::string big1(3 * bs, 'q'), big2(bs + 1, 'w'), eq(bs, 'e');
   for (size_t i = 0; i < big1.size(); i++) big1[i] = A1[i % 18];
   for (size_t i = 0; i < big2.size(); i++) big2[i] = (char)('i' + i % 8);          // i..p
@@ -34,86 +42,142 @@ Pattern pattern(int id, int bs) {
     case 5: return {{{"+" + big2 + "|" + eq}, {"XYZ"}}};    // producer 0 hands its record over in two lockless appends ('+' marks it, '|' is the split point)
     case 6: return {{{"", eq, "", "Y", ""}}};             // one producer: zero-length appends before any buffer was fetched, right after a buffer
                                                           // was filled exactly (no current buffer, pool possibly exhausted) and as the last call
-    case 7: return {{{"+|" + big2, "+|", "+" + eq + "|"}, {"", "XY"}}};   // two producers: lockless parts of length 0 (first / both / second), empty append
+    case 7: return {{{"+|" + big2, "+|", "+" + eq + "||cd|", "E"}, {"", "XY"}}};   // two producers: lockless parts of length 0 (first / both / middle and last of a
+                                                          // four-part record), a plain append right after a locked record, an empty append
+    case 8: { Pattern p{{{"X", eq, "Y"}}}; p.reenter = true; return p; }   // like 1, and the sink callback itself appends "Z" once (a sink that records its own
+                                                          // trouble); only for pools that cannot reach their limit (at the limit the producer legitimately waits
+                                                          // for the back end while holding the append lock, so a back end that appends would wait for itself)
+    case 9: return {{}};                                  // no append at all
     default: return {{{"A"}}};
   }
 }
-AsyncPipe *g_pipe = nullptr;
-void dump() {
-  if (!g_pipe || !g_pipe->impl_) return; auto *i = g_pipe->impl_;
-  sched_note("DUMP pipe: stop=%d inited=%d curr=%p free=%zu full=%zu buff_num=%zu", (int)i->stop_signal_, (int)i->inited_, (void *)i->curr_buffer_, i->free_buffers_.size(), i->full_buffers_.size(), i->buff_num_);
+std::string esc(const std::string &s) { std::string r; char b[8]; for (unsigned char c : s) { if (c >= 0x21 && c < 0x7f && c != '\\') r += (char)c; else { snprintf(b, sizeof b, "\\x%02x", c); r += b; } } return r; }
+
+struct Ctx {                      // one pipe with its sink
+  AsyncPipe *p = nullptr; std::string out; int in_cb = 0; bool overlap = false; size_t max_block = 0;
+  bool reenter = false, z_issued = false, z_mandatory = false, cleanup_begun = false;
+};
+template <class I> void dump_impl(I *i, const char *who) {
+  sched_note("DUMP %s: stop=%d inited=%d curr=%p free=%ld full=%ld buff_num=%ld", who, VF_GET(stop_signal_, *i, -1), VF_GET(inited_, *i, -1), VF_GET(curr_buffer_, *i, (const void *)nullptr),
+             VF_SIZE(free_buffers_, *i, -1L), VF_SIZE(full_buffers_, *i, -1L), VF_GET(buff_num_, *i, -1L));
 }
-struct Session { int bs, mn, mx; Pattern pat; };
+template <class T> auto impl_of(T &p, int) -> decltype(&*p.impl_) { return p.impl_ ? &*p.impl_ : nullptr; }
+template <class T> std::nullptr_t impl_of(T &, long) { return nullptr; }
+inline void dump_impl(std::nullptr_t, const char *) {}
+Ctx *g_ctx[2] = {nullptr, nullptr};
+void dump() { for (int k = 0; k < 2; k++) if (g_ctx[k] && g_ctx[k]->p) { auto i = impl_of(*g_ctx[k]->p, 0); if (i) dump_impl(i, k ? "pipe2" : "pipe"); } }
+
+// one call with a caller-owned block that dies with the call
+void put(AsyncPipe &pipe, const char *d, size_t n, bool lockless) {
+  char *blk = new char[n ? n : 1]; memcpy(blk, d, n);
+  if (lockless) pipe.appendLockless(blk, n); else pipe.append(blk, n);
+  memset(blk, '#', n); delete[] blk;
+}
+std::vector<std::string> parts_of(const std::string &s) {      // "+a|b|c" -> a, b, c
+  std::vector<std::string> v; size_t a = 1; for (;;) { size_t b = s.find('|', a); if (b == std::string::npos) { v.push_back(s.substr(a)); break; } v.push_back(s.substr(a, b - a)); a = b + 1; } return v;
+}
+void produce(AsyncPipe &pipe, const std::vector<std::string> &lst) {
+  for (auto &s : lst) {
+    if (!s.empty() && s[0] == '+') { pipe.appendLock(); for (auto &x : parts_of(s)) put(pipe, x.data(), x.size(), true); pipe.appendUnlock(); }
+    else put(pipe, s.data(), s.size(), false);
+  }
+}
+AsyncPipe::Callback sink_of(Ctx *c) {
+  return [c](const void *p, size_t n) {
+    if (c->in_cb++) c->overlap = true;
+    if (n > c->max_block) c->max_block = n;
+    c->out.append((const char *)p, n);
+    sched_point_here();                       // let other threads run while "inside" the sink callback
+    if (c->reenter && !c->z_issued) { c->z_issued = true; put(*c->p, "Z", 1, false); if (!c->cleanup_begun) c->z_mandatory = true; }   // appended before cleanup began -> must be delivered
+    c->in_cb--;
+  };
+}
+void set_up(Ctx &c, int bs, int mn, int mx, int order, bool with_cb) {
+  AsyncPipe::Config *cfg = new AsyncPipe::Config; cfg->buff_size = bs; cfg->buff_min_num = mn; cfg->buff_max_num = mx; cfg->interval = 1000;
+  // cleanup() drops the callback, so it is set again in every session
+  if (!order && with_cb) c.p->setCallback(sink_of(&c));
+  if (!c.p->initialize(*cfg)) sched_fail("initialize failed");
+  cfg->buff_size = cfg->buff_min_num = cfg->buff_max_num = cfg->interval = 0; delete cfg;      // the caller's Config is gone from here on
+  if (order && with_cb) c.p->setCallback(sink_of(&c));
+}
+// ---- oracle: out must be an interleaving of the producers' append lists, each append contiguous, producer order kept
+void judge(Ctx &c, const Pattern &P, int bs, const char *tag) {
+  std::vector<std::vector<std::string>> want;
+  for (auto &lst : P.prod) { want.emplace_back(); for (auto x : lst) {
+      if (!x.empty() && x[0] == '+') { std::string j; for (auto &y : parts_of(x)) j += y; x = j; }      // what must come out: the parts back to back
+      if (!x.empty()) want.back().push_back(x); } }                                    // a zero-length append contributes nothing
+  size_t optional = want.size();
+  if (c.z_issued) { want.push_back({"Z"}); if (c.z_mandatory) optional = want.size(); }   // the sink's own append: one more "producer"; may be missing only if it raced with cleanup
+  std::vector<size_t> next(want.size(), 0); size_t pos = 0; bool ok = true; const std::string &out = c.out;
+  while (pos < out.size() && ok) {
+    ok = false;
+    for (size_t p = 0; p < want.size(); p++) if (next[p] < want[p].size()) { const std::string &s = want[p][next[p]];
+      if (out.compare(pos, s.size(), s) == 0) { pos += s.size(); next[p]++; ok = true; break; } }
+  }
+  bool all = true; for (size_t p = 0; p < want.size(); p++) if (p != optional && next[p] != want[p].size()) all = false;
+  std::string e = esc(out);
+  sched_note("O%s out=%s", tag, e.c_str());
+  if (!ok) sched_fail("output-not-an-interleaving-of-contiguous-appends out=%s", e.c_str());
+  if (!all) sched_fail("data-lost-at-cleanup-return out=%s", e.c_str());
+  if (c.overlap) sched_fail("sink-callbacks-overlap");
+  if (c.max_block > (size_t)bs) sched_fail("block-larger-than-buffer");
+}
+
+struct Session { int bs, mn, mx; Pattern pat; bool with_cb; };
 // Life cycles (L):
 //   0  one session: [setCallback, initialize], producers, join, cleanup()
 //   1  two sessions on the same object with the same configuration (what log::AsyncSink does on disable/enable); the first is one 1-byte append
-//   3  like 0, but first every rejected configuration is offered to initialize() (buff_size 0, min 0, min > max, interval 0), with and
-//      without a cleanup() after the refusal (the retry idiom); cleanup() is called twice at the end. Whatever initialize() answers, every
-//      cleanup() must return and the real session must be lossless.
+//   3  like 0, but first every rejected configuration is offered to initialize() (buff_size 0, min 0, min > max, interval 0), each of them once
+//      followed by cleanup() and once followed directly by the next initialize() (the retry idiom); cleanup() is called twice at the end.
+//      Whatever initialize() answers, every cleanup() must return and the real session must be lossless.
 //   4  like 0 on a heap object that is destroyed with the data still pending, without an explicit cleanup() (async_pipe.h: destroying
 //      the object stops the thread and hands all buffered data to the callback, i.e. destruction is a cleanup)
 //   5  two sessions with DIFFERENT configurations: the first is pattern 0 (fills buffers, grows the pool, blocks at the limit) under
 //      (2,2,3) when the second has buff_size 1, else under (1,1,1); the second is pattern A under the command-line configuration
 //   6  like 5, the first session under (1,1,3) when the second has buff_size > 1, else (2,1,3)   (pool grows by two, larger<->smaller buffers)
+//   7  like 0 while a SECOND pipe with another buffer size ((2,1,2) or (1,1,2)), its own sink and its own producer ("mn") is alive: set up
+//      before, producing concurrently, cleaned up after the first; the oracle is applied to each pipe separately (nothing may cross over)
+//   8  three sessions on one object: pattern 1 WITHOUT a callback (only: cleanup returns), then a session with no append at all
+//      (stop may arrive before the thread's first wait), then pattern A with the full oracle
 void scenario(int bs, int mn, int mx, int code) {
   const int app = code % 10, life = (code / 10) % 10, order = (code / 100) % 10;
   std::vector<Session> sessions;
-  if (life == 1) sessions.push_back(Session{bs, mn, mx, Pattern{{{"S"}}}});
-  if (life == 5) sessions.push_back(bs == 1 ? Session{2, 2, 3, pattern(0, 2)} : Session{1, 1, 1, pattern(0, 1)});
-  if (life == 6) sessions.push_back(bs == 1 ? Session{2, 1, 3, pattern(0, 2)} : Session{1, 1, 3, pattern(0, 1)});
-  sessions.push_back(Session{bs, mn, mx, pattern(app, bs)});
-  std::string out; int in_cb = 0; bool overlap = false; size_t max_block = 0;
-  AsyncPipe *pp = new AsyncPipe; AsyncPipe &pipe = *pp; g_pipe = pp; sched_on_deadlock(dump);
-  auto sink = [&](const void *p, size_t n) {
-    if (in_cb++) overlap = true;
-    if (n > max_block) max_block = n;
-    out.append((const char *)p, n);
-    sched_point_here();                       // let other threads run while "inside" the sink callback
-    in_cb--;
-  };
+  if (life == 1) sessions.push_back(Session{bs, mn, mx, Pattern{{{"S"}}}, true});
+  if (life == 5) sessions.push_back(bs == 1 ? Session{2, 2, 3, pattern(0, 2), true} : Session{1, 1, 1, pattern(0, 1), true});
+  if (life == 6) sessions.push_back(bs == 1 ? Session{2, 1, 3, pattern(0, 2), true} : Session{1, 1, 3, pattern(0, 1), true});
+  if (life == 8) { sessions.push_back(Session{bs, mn, mx, pattern(1, bs), false}); sessions.push_back(Session{bs, mn, mx, pattern(9, bs), true}); }
+  sessions.push_back(Session{bs, mn, mx, pattern(app, bs), true});
+  Ctx c1, c2; c1.p = new AsyncPipe; AsyncPipe &pipe = *c1.p; g_ctx[0] = &c1; sched_on_deadlock(dump);
   if (life == 3) {
-    AsyncPipe::Config bad[4]; bad[0].buff_size = 0; bad[1].buff_min_num = 0; bad[2].buff_min_num = 3; bad[2].buff_max_num = 2; bad[3].interval = 0;
-    for (int k = 0; k < 4; k++) {
-      if (!order) pipe.setCallback(sink);
-      bool r = pipe.initialize(bad[k]); sched_note("bad-config %d: initialize=%d", k, (int)r);   // the answer itself is not part of the property
-      if (order) pipe.setCallback(sink);
-      if (r || k % 2 == 0) pipe.cleanup();    // must return (a pipe that accepted the configuration is cleaned up like any other)
+    for (int pass = 0; pass < 2; pass++) for (int k = 0; k < 4; k++) {
+      AsyncPipe::Config *bad = new AsyncPipe::Config;
+      if (k == 0) bad->buff_size = 0; if (k == 1) bad->buff_min_num = 0; if (k == 2) { bad->buff_min_num = 3; bad->buff_max_num = 2; } if (k == 3) bad->interval = 0;
+      if (!order) pipe.setCallback(sink_of(&c1));
+      bool r = pipe.initialize(*bad); sched_note("bad-config %d: initialize=%d", k, (int)r);   // the answer itself is not part of the property
+      delete bad;
+      if (order) pipe.setCallback(sink_of(&c1));
+      if (r || (k + pass) % 2 == 0) pipe.cleanup();    // must return (a pipe that accepted the configuration is cleaned up like any other)
     }
   }
-  for (size_t si = 0; si < sessions.size(); si++) { Session &S = sessions[si]; Pattern &P = S.pat; out.clear(); max_block = 0; g_pipe = pp;
-    AsyncPipe::Config cfg; cfg.buff_size = S.bs; cfg.buff_min_num = S.mn; cfg.buff_max_num = S.mx; cfg.interval = 1000;
-    // cleanup() drops the callback, so it is set again in every session
-    if (!order) pipe.setCallback(sink);
-    if (!pipe.initialize(cfg)) sched_fail("initialize failed");
-    if (order) pipe.setCallback(sink);
+  Pattern P2{{{"mn"}}}; const int bs2 = bs == 1 ? 2 : 1;
+  if (life == 7) { c2.p = new AsyncPipe; g_ctx[1] = &c2; set_up(c2, bs2, 1, 2, order, true); }
+  for (size_t si = 0; si < sessions.size(); si++) { Session &S = sessions[si]; Pattern &P = S.pat;
+    c1.out.clear(); c1.max_block = 0; c1.reenter = P.reenter; c1.z_issued = c1.z_mandatory = c1.cleanup_begun = false;
+    set_up(c1, S.bs, S.mn, S.mx, order, S.with_cb);
     std::vector<std::thread> th;
-    for (auto &lst : P.prod) th.emplace_back([&pipe, &lst] { for (auto &s : lst) {
-        if (!s.empty() && s[0] == '+') { size_t cut = s.find('|'); pipe.appendLock(); pipe.appendLockless(s.data() + 1, cut - 1); pipe.appendLockless(s.data() + cut + 1, s.size() - cut - 1); pipe.appendUnlock(); }
-        else pipe.append(s.data(), s.size()); } });
+    for (auto &lst : P.prod) th.emplace_back([&pipe, &lst] { produce(pipe, lst); });
+    if (life == 7) th.emplace_back([&c2, &P2] { produce(*c2.p, P2.prod[0]); });
     for (auto &t : th) t.join();
     // everything appended before this point must have been delivered when cleanup (or the destructor) returns
-    if (life == 4) { g_pipe = nullptr; delete pp; pp = nullptr; }
+    c1.cleanup_begun = true;
+    if (life == 4) { AsyncPipe *d = c1.p; g_ctx[0] = nullptr; delete d; c1.p = nullptr; }
     else { pipe.cleanup(); if (life == 3) pipe.cleanup(); }
-    g_pipe = nullptr;
-    // ---- oracle: out must be an interleaving of the producers' append lists, each append contiguous, producer order kept
-    std::vector<std::vector<std::string>> want;
-    for (auto &lst : P.prod) { want.emplace_back(); for (auto x : lst) {
-        if (!x.empty() && x[0] == '+') { x.erase(x.find('|'), 1); x.erase(0, 1); }      // what must come out: the two parts back to back
-        if (!x.empty()) want.back().push_back(x); } }                                    // a zero-length append contributes nothing
-    std::vector<size_t> next(want.size(), 0); size_t pos = 0; bool ok = true;
-    while (pos < out.size() && ok) {
-      ok = false;
-      for (size_t p = 0; p < want.size(); p++) if (next[p] < want[p].size()) { const std::string &s = want[p][next[p]];
-        if (out.compare(pos, s.size(), s) == 0) { pos += s.size(); next[p]++; ok = true; break; } }
-    }
-    bool all = true; for (size_t p = 0; p < want.size(); p++) if (next[p] != want[p].size()) all = false;
-    sched_note("O%zu out=%s", si, out.c_str());
-    if (!ok) sched_fail("output-not-an-interleaving-of-contiguous-appends out=%s", out.c_str());
-    if (!all) sched_fail("data-lost-at-cleanup-return out=%s", out.c_str());
-    if (overlap) sched_fail("sink-callbacks-overlap");
-    if (max_block > (size_t)S.bs) sched_fail("block-larger-than-buffer");
+    char tag[8]; snprintf(tag, sizeof tag, "%zu", si);
+    if (S.with_cb) judge(c1, P, S.bs, tag);
+    else if (!c1.out.empty()) sched_fail("block delivered to a sink that was never set");
   }
-  delete pp;
+  if (life == 7) { c2.cleanup_begun = true; c2.p->cleanup(); judge(c2, P2, bs2, "b"); g_ctx[1] = nullptr; delete c2.p; }
+  g_ctx[0] = nullptr; delete c1.p;
 }
 }  // namespace
 
